@@ -15,6 +15,16 @@ fn mk(seed: u64) -> (Vec<u8>, Vec<u8>) {
         let basis: Vec<u8> = (0..n).map(|_| r.next() as u8).collect();
         return (basis.clone(), basis);
     }
+    if seed % 7 == 6 {
+        // a LARGE file with scattered small edits: many operations, each far below 64 KiB, together far above it
+        let n = 262_144 + r.below(70_000) as usize;
+        let basis: Vec<u8> = (0..n).map(|_| r.next() as u8).collect();
+        let mut src = basis.clone();
+        let step = 9_000 + r.below(20_000) as usize;
+        let mut k = step / 2;
+        while k < n { src[k] ^= 0x5a; k += step; }
+        return (basis, src);
+    }
     let n = 2048 + r.below(3000) as usize;
     let basis: Vec<u8> = (0..n).map(|_| r.next() as u8).collect();
     let mut src = basis.clone();
@@ -48,10 +58,22 @@ fn mutate(code: u32, basis: &mut Vec<u8>, d: &mut Delta) -> String {
         18 => { basis.clear(); "empty basis".into() }
         19 => { basis.extend_from_slice(b"extended-by-a-tail"); "basis extended by 18 bytes".into() }
         20 => { if let Some(l) = basis.last_mut() { *l ^= 1; } "last basis byte flipped".into() }
-        _ => { let n = basis.len(); *basis = (0..n).map(|i| (i * 7 + 3) as u8).collect(); "unrelated basis of the same size".into() }
+        21 => { let n = basis.len(); *basis = (0..n).map(|i| (i * 7 + 3) as u8).collect(); "unrelated basis of the same size".into() }
+        _ => {
+            // a VALID re-cut: every copy split into pieces of at most 1000 bytes (same output, same checksum)
+            let mut ops = Vec::new();
+            for op in d.ops.drain(..) {
+                match op {
+                    DeltaOp::Copy { offset, len } => { let mut o = 0u64; while o < u64::from(len) { let l = (u64::from(len) - o).min(1000); ops.push(DeltaOp::Copy { offset: offset + o, len: l as u32 }); o += l; } }
+                    x => ops.push(x),
+                }
+            }
+            d.ops = ops;
+            "every copy re-cut into pieces of at most 1000 bytes (a valid delta for the same output)".into()
+        }
     }
 }
-pub const NMUT: u32 = 22;
+pub const NMUT: u32 = 23;
 
 fn run_case(engine: u8, seed: u64, code: u32) -> Option<String> {
     let (mut basis, src) = mk(seed);
@@ -86,6 +108,15 @@ pub fn search(contract: &str, seed: u64, budget: u64) -> i32 {
     let t0 = Instant::now();
     let engines: &[u8] = if contract.contains("Async") { &[1] } else { &[0] };
     let mut s = seed;
+    // the large-file shapes first (seed % 7 == 6), then the stream of small ones
+    for &e in engines {
+        for code in [0u32, 22, 5, 9, 12] {
+            if let Some(what) = run_case(e, 6, code) {
+                println!("WITNESS {{\"kind\":\"patch\",\"engine\":{e},\"seed\":6,\"mutation\":{code},\"what\":\"{}\"}}", what.replace('"', "'"));
+                return 1;
+            }
+        }
+    }
     loop {
         for &e in engines {
             for code in 0..NMUT {
